@@ -25,7 +25,7 @@ STOP_MODES = ["single_difference_loss", "sum_absolute_difference_loss", "sum_abs
               "sum_absolute_difference_projected_gradient"]
 # stopping thresholds that make the four modes comparably strict (the loss modes bound a decrease ~ |step|^2)
 MODE_EPS = {"single_difference_loss": 1e-14, "sum_absolute_difference_loss": 1e-14,
-            "sum_absolute_difference_variable": 1e-8, "sum_absolute_difference_projected_gradient": 1e-7}
+            "sum_absolute_difference_variable": 1e-8, "sum_absolute_difference_projected_gradient": 3e-6}
 
 
 def gen(seed, salt):
@@ -67,7 +67,7 @@ def run_cvx(qt, empi, fam, eps_tol=1e-9):
 def make_specs(seed, quick, volume=1):
     rnd = np.random.Generator(np.random.PCG64(seed * 104729 + (0 if quick else 1) + 31 * volume))
     cells = []
-    reps = (10 if quick else 40) * volume
+    reps = (10 if quick else 80) * volume
     for rep in range(reps):
         for kind in ("qst", "povmt", "qpt"):
             for para in (True, False):
@@ -174,6 +174,12 @@ def eval_spec(spec):
     if worst is not None and worst[0] > 1e-4:
         viol(f"C11/pgdb/{cls}/not-a-descent-direction",
              f"{fam}: iteration {worst[1] + 1}: <y, grad f> = {worst[2]:.3e} > -mu |y|^2 = {worst[3]:.3e} (|y| = {worst[4]:.2e})")
+    # --- the estimate does not depend on whether the history is recorded
+    if spec["salt"] % 3 == 0:
+        r0 = L.run_lme(qt, empi, fam, "pgdb", history=False, **opt)[0]
+        if not np.array_equal(np.array(r0.estimated_var, dtype=float), xhat):
+            viol(f"C11/pgdb/{kind}/history-flag-changes-estimate",
+                 f"{fam} {mode}: estimate with on_iteration_history differs by {np.abs(np.array(r0.estimated_var) - xhat).max():.3e}")
     # --- optimality certificate
     tol_f = 1e-6 * scale
     comps = [("truth", to_var(qt, true))]
@@ -213,9 +219,11 @@ def eval_spec(spec):
                      f"{fam} {mode} shots={spec['shots']}: f(estimate) = {fhat!r} > f({name}) = {fz!r} (gap {fhat - fz:.3e})")
                 break
         # projected-gradient residual of the returned point
+        # (with a dependent element the installed projection is not the Euclidean one in the variable space, so its fixed
+        # points are not the stationarity measure there: optimality is certified by the competitors only)
         ghat = lobj.gradient(xhat)
         resid = float(np.linalg.norm(L.quiet(aobj.func_proj, xhat - ghat / mu)[0] - xhat))
-        if resid > 1e-3:
+        if resid > 1e-3 and cls == kind:
             viol(f"C11/pgdb/{cls}/projected-gradient-residual", f"{fam} {mode}: |P(x - grad/mu) - x| = {resid:.3e} at the estimate")
         if xc is not None and np.all(np.isfinite(xc)):
             dx = float(np.linalg.norm(xc - xhat))
@@ -296,7 +304,7 @@ def correspondence(ctx):
     g = ctx.npgen(21)
     # --- 1. line search replayed on real loss values
     cells = [("qst", True), ("qst", False), ("povmt", False), ("qpt", True), ("qpt", False)]
-    reps = 1 if ctx.quick else 3
+    reps = 2 if ctx.quick else 6
     for kind, para in cells:
         for fam in ("se", "re", "fse", "fre"):
             for rep in range(reps):
